@@ -4,5 +4,5 @@ CONSTANTS
 INIT Init
 NEXT Next
 CONSTRAINT DumpCase
-INVARIANTS ExactlyOnce SortedOps
+INVARIANTS ExactlyOnce SortedOps OptionsIndependent
 CHECK_DEADLOCK FALSE
